@@ -186,6 +186,33 @@ func runC12(c *Ctx) {
 	}
 	rz := ReachQ{Fn: rr, CutInstr: isZeroTest, Sink: func(in ssa.Instruction) bool { _, ok := in.(*ssa.Return); return ok }}.Run()
 	c.Check(!rz.Found, pkg+".refreshRetain#zero-tested", rr.Pos(), "every return passes the retain==0 test", "refreshRetain can return without testing for the unset (0) value: "+P.PathString(rz.Path))
+	// the defaults may come from a private helper: `return defaultRefreshRetain()` under retain==0
+	for i, lf := range ReturnLeaves(rr, 0) {
+		cc, _, isCall := CallResult(lf.Val)
+		if !isCall {
+			continue
+		}
+		h := cc.Common().StaticCallee()
+		if h == nil || h.Pkg != rr.Pkg || len(cc.Common().Args) != 0 || len(h.Blocks) == 0 {
+			continue
+		}
+		okOnly := true
+		for j, hl := range ReturnLeaves(h, 0) {
+			k, isC := ConstInt(hl.Val)
+			switch {
+			case isC && k == 2:
+				seen[2] = true
+				c.GuardedFlow(fmt.Sprintf("%s.refreshRetain#default-classic#h%d", pkg, j+1), h, hl, []Clause{{onClassic}}, nil)
+			case isC && k == 3:
+				seen[3] = true
+				c.GuardedFlow(fmt.Sprintf("%s.refreshRetain#default-core#h%d", pkg, j+1), h, hl, []Clause{{Not(onClassic)}}, nil)
+			default:
+				okOnly = false
+			}
+		}
+		c.Check(okOnly, fmt.Sprintf("%s.refreshRetain#default-helper#%d", pkg, i+1), cc.Pos(), "the helper returns only the reviewed defaults", "the helper that supplies refreshRetain's default returns something other than 2 or 3")
+		c.GuardedFlow(fmt.Sprintf("%s.refreshRetain#default-only-when-unset#%d", pkg, i+1), rr, lf, []Clause{{isZero}}, nil)
+	}
 	c.Check(seen[2] && seen[3], pkg+".refreshRetain#defaults-present", rr.Pos(), "defaults 2 and 3 present", "the documented defaults (2 on classic, 3 otherwise) are no longer both present")
 
 	c.Rule("C12-R5", "L", "boot.InUse: the answer considers every revision the boot state reports (current and try snap)", 2)
